@@ -183,7 +183,43 @@ fn long_soaks() -> Vec<std::thread::JoinHandle<(&'static str, u64, Result<(), St
     ]
 }
 
+/// Counters in static memory behind any stage (hidden.rs): driven across their wrap-arounds; here only a panic counts.
+fn static_counter_wraps(rep: &mut Report) {
+    use pc_keyboard::{KeyboardLayout, ScancodeSet};
+    let r1 = ref_for(1);
+    let r2 = ref_for(2);
+    let mut rng = Rng::fork(rep.seed, 0xC08_57A7);
+    let b1 = Typist::new(1, &r1).typing(&mut rng, 600);
+    let b2 = Typist::new(2, &r2).typing(&mut rng, 600);
+    let mut d1 = ScancodeSet1::fresh();
+    let mut d2 = ScancodeSet2::fresh();
+    let mut ps2 = crate::scan::fresh_ps2();
+    let mut kb = Keyboard::new(ScancodeSet2::fresh(), any_value(0), HandleControl::MapLettersToUnicode);
+    let any = any_value(3);
+    let mut n = 0usize;
+    let mut step = || -> Option<(String, String)> {
+        n += 1;
+        let i = n / 8;
+        let (op, r): (&'static str, Result<(), String>) = match n % 8 {
+            0 => ("ScancodeSet1::advance_state", guarded(|| { let _ = d1.advance_state(b1[i % b1.len()]); })),
+            1 => ("ScancodeSet2::advance_state", guarded(|| { let _ = d2.advance_state(b2[i % b2.len()]); })),
+            2 => ("Ps2Decoder::add_bit", guarded(|| { let _ = ps2.add_bit(i % 3 == 0); })),
+            3 => ("Ps2Decoder::add_word", guarded(|| { let _ = ps2.add_word(crate::model::encode_frame((i % 256) as u8) ^ if i % 5 == 0 { 0x200 } else { 0 }); })),
+            4 => ("Keyboard::add_byte", guarded(|| { if let Ok(Some(ev)) = kb.add_byte(b2[i % b2.len()]) { let _ = kb.process_keyevent(ev); } })),
+            5 => ("Keyboard::add_bit", guarded(|| { let _ = kb.add_bit(i % 2 == 0); })),
+            6 => ("AnyLayout::map_keycode", guarded(|| { let _ = any.map_keycode(NAMED_KEYS[i % NAMED_KEYS.len()], &mods_from_bits((i % 512) as u16), MODES[i % 2]); })),
+            _ => ("Keyboard::clear", guarded(|| { if i % 64 == 0 { kb.clear(); ps2.clear(); } })),
+        };
+        match r {
+            Ok(()) => None,
+            Err(p) => Some((format!("C08|{}|static-counter-wrap|{}", op, panic_sig(&p)), format!("{} panicked: {}", op, p))),
+        }
+    };
+    crate::hidden::counter_wraps(rep, "every stage", &mut step, 4000);
+}
+
 pub fn run(rep: &mut Report) {
+    static_counter_wraps(rep);
     let long = if rep.thorough() && !ctor_overridden() { long_soaks() } else { Vec::new() };
     let mut t = Tally::new();
     let uni = universe();
